@@ -134,6 +134,8 @@ def plan(prop):
         for template, dims, places in ((('pd', 1, 1), ('mixed', 1, 1), ('empty', 1, 1), ('p-only', 1, 1), ('pd', 2, 1), ('mixed', 1, 2)) if Q else
                                        (('pd', 1, 1), ('mixed', 1, 1), ('empty', 1, 1), ('p-only', 1, 1), ('pd', 2, 1), ('mixed', 2, 2), ('pd', 3, 1), ('pd', 1, 3))):
             obs.append(('vrp-pragmatic', lambda ctx, t=template, d=dims, n=places: po.ob_job_rules(ctx, t, d, n)))
+        for size in ((1, 2) if Q else (1, 2, 3)):
+            obs.append(('vrp-pragmatic', lambda ctx, size=size: po.ob_location_index_rule(ctx, size)))
         # totality beyond the inline load size (8 dimensions): the recorded known finding
         obs.append(('vrp-pragmatic', lambda ctx: po.ob_job_rules(ctx, 'pd', 9)))
     if prop in ('C16', 'C10'):
